@@ -87,7 +87,8 @@ class Check:
     def floor(self, rule, what, count, minimum):
         """instance-count floor: fewer instances than confirmed by hand => analysis broken"""
         self.analysed["%s: %s%s" % (rule, what, " [portable]" if self.relaxed else "")] = count
-        if count < minimum and not self.relaxed:
+        if count < minimum and not self.relaxed and not any(v["rule"] == rule for v in self.violations):
+            # (a short count next to a violation of the same rule is the violation's consequence and is reported as such)
             raise AnalysisBroken("%s: %s matched %d instance(s), expected at least %d — the rule "
                                  "would pass vacuously" % (rule, what, count, minimum))
 
